@@ -69,6 +69,9 @@ def expand_(
                     nonlocal active_count
 
                     observer.on_next(value)
+                    if d.is_disposed:
+                        return
+
                     result = None
                     try:
                         result = mapper(value)
